@@ -91,7 +91,14 @@ struct HistEngine : Engine {
 			Json fl = Json::array();
 			int nf = (int)w.range(2, 4);
 			for (int i = 0; i < nf; i++) fl.push((int64_t)w.below((uint64_t)ndocs));
-			o["files"] = fl; o["fmt"] = w.chance(2, 3) ? 0 : 2; o["env"] = gen_env(en);
+			static const int cf[] = {FMT_HTML, FMT_HTML, FMT_HTML, FMT_LATEX, FMT_LATEX, FMT_BEAMER, FMT_MEMOIR, FMT_FODT, FMT_OPML, FMT_MMD};      // formats whose output does not consume the clock-seeded rand()
+			o["files"] = fl; o["fmt"] = cf[w.below(10)]; o["env"] = gen_env(en);
+			// command line options: whatever they switch on must act on every file of the batch alike
+			Json flags = Json::array();
+			static const char * fl1[] = {"--nosmart", "--nolabels", "-f", "-s", "-c", "--accept", "--reject", "--notransclude"};
+			for (const char * f : fl1) if (w.chance(1, 8)) flags.push(std::string(f));
+			if (w.chance(1, 5)) { static const char * lg[] = {"de", "fr", "es", "nl", "sv", "he"}; flags.push(std::string("-l")); flags.push(std::string(lg[w.below(6)])); }
+			o["flags"] = flags;
 			ops.push(o);
 			p["ops"] = ops;
 			return p;
@@ -117,6 +124,9 @@ struct HistEngine : Engine {
 					if (use_pkg && w.chance(1, 2)) { static const int pf[] = {FMT_EPUB, FMT_ODT, FMT_TEXTBUNDLE_COMPRESSED, FMT_ITMZ}; o["fmt"] = pf[w.below(4)]; }
 					if (w.chance(1, 2)) o["dir"] = "/sim/a";
 				}
+				// convert_to_data / _to_file + FORMAT_MMD on an import source is the input-level use-after-free of DESIGN section 6 (C01, not
+				// claimed): it would only turn the whole run into an out-of-scope one
+				if ((int)o.geti("doc") == opml_doc && o.gets("call") != "convert" && o.geti("fmt") == FMT_MMD) o["fmt"] = FMT_HTML;
 				o["env"] = gen_env(en);
 			} else if (k < 70 && use_eng) {
 				unsigned j = (unsigned)w.below(100);
@@ -131,6 +141,7 @@ struct HistEngine : Engine {
 					o["k"] = "E_TO_DATA"; o["fmt"] = fmt_for(); o["env"] = gen_env(en);
 					if (use_pkg && w.chance(1, 2)) { static const int pf[] = {FMT_EPUB, FMT_ODT, FMT_TEXTBUNDLE_COMPRESSED, FMT_ITMZ}; o["fmt"] = pf[w.below(4)]; }
 					if (w.chance(1, 2)) o["dir"] = "/sim/a";
+					if (S.opml && o.geti("fmt") == FMT_MMD) o["fmt"] = FMT_HTML;      // see above
 					S.parsed = true; S.exported = true; S.stale = false;
 				}
 				else if (j < 46) { o["k"] = "E_PARSE"; S.parsed = true; S.exported = false; S.stale = false; }
@@ -432,7 +443,11 @@ struct HistEngine : Engine {
 
 	// multimarkdown -b file1 file2 ... in-process; the result is the concatenation of (name, content) of every output file
 	static std::string run_cli(const Json & op, const Json & docs) {
-		std::vector<std::string> args = {"multimarkdown", "-b", "-t", op.geti("fmt") == 2 ? "latex" : "html"};
+		static const char * fnames[] = {"html", "epub", "latex", "beamer", "memoir", "fodt", "odt", "bundle", "bundlezip", "opml", "itmz", "mmd", "html"};
+		static const char * bext[] = {".html", ".epub", ".tex", ".tex", ".tex", ".fodt", ".odt", ".textbundle", ".textpack", ".opml", ".itmz", ".mmdtext", ".html"};
+		int cfmt = (int)op.geti("fmt") % 13;
+		std::vector<std::string> args = {"multimarkdown", "-b", "-t", fnames[cfmt]};
+		if (op.has("flags")) for (auto & f : op.at("flags").a) args.push_back(f.s);
 		const Json & fl = op.at("files");
 		std::vector<std::string> paths;
 		for (size_t i = 0; i < fl.size(); i++) {
@@ -449,7 +464,7 @@ struct HistEngine : Engine {
 		std::string out = "rc=" + std::to_string(rc) + "\n";
 		for (size_t i = 0; i < paths.size(); i++) {
 			std::string base = "/sim/b/f" + std::to_string(i);
-			std::string of = base + (op.geti("fmt") == 2 ? ".tex" : ".html");
+			std::string of = base + bext[cfmt];
 			auto it = g_sim.files.find(of);
 			// one record per input file, so that a single-file reference can be compared with its slice
 			out += "== " + std::to_string(i) + " " + (it == g_sim.files.end() ? std::string("<missing>") : digest(it->second.written)) + "\n";
